@@ -45,6 +45,9 @@ def standard(prop, spec, tier, seed, keep=False, replay=None):
                 e.update(opts.get("env", {}))
                 return e
             extra = list(spec.get("args", ())) + list(opts.get("args", ()))
+            first = []
+            if spec.get("prop_args_first"):
+                first, extra = extra, []
             only = None
             if replay:
                 only = replay.get("shard", 0)
@@ -63,14 +66,14 @@ def standard(prop, spec, tier, seed, keep=False, replay=None):
             results = vlib.run_shards(exe, os.path.join(cdir, "run"), nshards, cases, seed,
                                       thorough=(tier == "thorough"), env_fn=env_fn,
                                       timeout=spec.get("timeout", {"quick": 900, "thorough": 5400})[tier],
-                                      extra_args=extra, prop=prop, budget=spec.get("budget"), only_shard=only,
+                                      extra_args=extra, prop=prop, budget=spec.get("budget"), only_shard=only, first_args=first,
                                       stack_mb=spec.get("stack_mb"))
             if any(r.timed_out for r in results) and not replay:
                 log("watchdog fired; retrying once")
                 results = vlib.run_shards(exe, os.path.join(cdir, "run2"), nshards, cases, seed,
                                           thorough=(tier == "thorough"), env_fn=env_fn,
                                           timeout=spec.get("timeout", {"quick": 900, "thorough": 5400})[tier],
-                                          extra_args=extra, prop=prop, budget=spec.get("budget"),
+                                          extra_args=extra, prop=prop, budget=spec.get("budget"), first_args=first,
                                           stack_mb=spec.get("stack_mb"))
             out.absorb([r for r in results if only is None or r.shard == only], config + opts.get("tag", ""),
                        dict(config=config, nshards=nshards, cases=cases))
